@@ -41,6 +41,7 @@ const (
 	opRead    = 0x1227
 	opCrit    = 0x1225
 	opReadCD  = 0x1226
+	opCreate  = 0x1228
 
 	szOpen    = 16
 	szOpenDir = 4
@@ -160,6 +161,7 @@ type scenario struct {
 	N      int       `json:"n,omitempty"`       // active: number of requests
 	Path   string    `json:"path,omitempty"`    // path of the STAT requests
 	Idle   string    `json:"idle,omitempty"`    // disabled: length of the silence
+	Mask   int       `json:"held_mask,omitempty"` // with Held: which handles (1 directory, 2 file, 4 write file; 0 = directory + file)
 	Op     string    `json:"op,omitempty"`      // active: what the requests are (default stat; crit, cd, read, mix need Held)
 	LateNs int64     `json:"late_ns,omitempty"` // active: the server goroutine is held this long between reading a command and reading its path (busy scheduler)
 }
@@ -370,7 +372,7 @@ func genScenarios(r *rand.Rand, thorough bool) []*scenario {
 		// (5) open file and open directory held when the cut happens
 		for i := 0; i < pick(50, 500); i++ {
 			k := r.Intn(4)
-			s := &scenario{Kind: "held-silent", Held: true, Reads: i%4 >= 2, K: k, GapsNs: randGaps(r, k, T), Path: randPath(r)}
+			s := &scenario{Kind: "held-silent", Held: true, Mask: []int{3, 1, 2, 4, 5, 6, 7}[i%7], Reads: i%4 >= 2, K: k, GapsNs: randGaps(r, k, T), Path: randPath(r)}
 			if i%2 == 1 {
 				s.Kind = "held-stall"
 				s.Pos = 1 + r.Intn(16+statPathLen-1)
@@ -578,7 +580,11 @@ func runScenario(t *testing.T, sc *scenario) *outcome {
 		}
 	}
 	spy := &countFs{Fs: mem, led: led}
-	srv := verifhook.NewServer(verifhook.NewHandler(afero.NewBasePathFs(spy, "/root"), false, 65536), T, discard)
+	mask := sc.Mask
+	if sc.Held && mask == 0 {
+		mask = 3
+	}
+	srv := verifhook.NewServer(verifhook.NewHandler(afero.NewBasePathFs(spy, "/root"), mask&4 != 0, 65536), T, discard)
 	ln := newMemListener()
 	served := make(chan error, 1)
 	go func() { served <- srv.Serve(ln) }()
@@ -614,29 +620,48 @@ func runScenario(t *testing.T, sc *scenario) *outcome {
 	stat := encode(opStat, sc.Path)
 
 	if sc.Held {
-		resp, stage, err := x.request(encode(opOpenDir, "/"), szOpenDir)
-		if err != nil {
-			x.failedRequest(liveRule, "OPENDIR /", stage, len(resp), err, 0)
+		want := int64(0)
+		if mask&1 != 0 {
+			want++
+			resp, stage, err := x.request(encode(opOpenDir, "/"), szOpenDir)
+			if err != nil {
+				x.failedRequest(liveRule, "OPENDIR /", stage, len(resp), err, 0)
+				return out
+			}
+			if binary.BigEndian.Uint32(resp) != 0 {
+				out.trouble = append(out.trouble, fmt.Sprintf("OPENDIR / refused: %x", resp))
+				return out
+			}
+		}
+		if mask&2 != 0 {
+			want++
+			resp, stage, err := x.request(encode(opOpen, "/f"), szOpen)
+			if err != nil {
+				x.failedRequest(liveRule, "OPEN /f", stage, len(resp), err, 0)
+				return out
+			}
+			if int64(binary.BigEndian.Uint64(resp)) != int64(len(fileContent)) {
+				out.trouble = append(out.trouble, fmt.Sprintf("OPEN /f refused: %x", resp))
+				return out
+			}
+		}
+		if mask&4 != 0 {
+			want++
+			resp, stage, err := x.request(encode(opCreate, "/w.bin"), 4)
+			if err != nil {
+				x.failedRequest(liveRule, "CREATE /w.bin", stage, len(resp), err, 0)
+				return out
+			}
+			if binary.BigEndian.Uint32(resp) != 0 {
+				out.trouble = append(out.trouble, fmt.Sprintf("CREATE /w.bin refused: %x", resp))
+				return out
+			}
+		}
+		if held := led.opens.Load() - led.closes.Load(); held != want {
+			out.trouble = append(out.trouble, fmt.Sprintf("expected %d handles held after the opens (mask %d), ledger says %d", want, mask, held))
 			return out
 		}
-		if binary.BigEndian.Uint32(resp) != 0 {
-			out.trouble = append(out.trouble, fmt.Sprintf("OPENDIR / refused: %x", resp))
-			return out
-		}
-		resp, stage, err = x.request(encode(opOpen, "/f"), szOpen)
-		if err != nil {
-			x.failedRequest(liveRule, "OPEN /f", stage, len(resp), err, 0)
-			return out
-		}
-		if int64(binary.BigEndian.Uint64(resp)) != int64(len(fileContent)) {
-			out.trouble = append(out.trouble, fmt.Sprintf("OPEN /f refused: %x", resp))
-			return out
-		}
-		if held := led.opens.Load() - led.closes.Load(); held != 2 {
-			out.trouble = append(out.trouble, fmt.Sprintf("expected 2 handles held after OPENDIR+OPEN, ledger says %d", held))
-			return out
-		}
-		if sc.Reads {
+		if sc.Reads && mask&2 != 0 {
 			for _, rq := range []struct {
 				b []byte
 				n int
